@@ -74,6 +74,9 @@ def corpus():
     cs.append(_case([_tree(4, [(0, 1), (1, 2), (2, 3)], "abca")], 3, "harmonic", {"offset": 1}))
     cs.append(_case([_tree(4, [(0, 1), (1, 2), (2, 3)], "abca")], 3, "geometric", {"offset": 2, "power": 0.25}, orient="symmetric"))
     cs.append(_case([_tree(4, [(0, 1), (0, 2), (2, 3)], "abxa")], 3, "geometric", {"offset": 1}, prune={"ignored_tokens": ["x"]}, fmt="lil"))
+    # one LIL adjacency object shared by three labellings, a different node pruned in each
+    cs.append(_case([_tree(4, [(0, 1), (1, 2), (2, 3)], "axbc"), _tree(4, [(0, 1), (1, 2), (2, 3)], "abxc"), _tree(4, [(0, 1), (1, 2), (2, 3)], "abcd")],
+                    3, "harmonic", {}, prune={"ignored_tokens": ["x"]}, fmt="lil"))
     # child->parent orientation
     cs.append(_case([_tree(5, [(1, 0), (2, 1), (3, 1), (4, 3)], "axbcd")], 3, prune={"ignored_tokens": ["x"]}))
     # direct remove_node calls
@@ -176,6 +179,10 @@ def generate(rng, tier):
         # nullify_mask together with a supplied token_dictionary is defect D30's ground (mask index taken from
         # the frequency table, C14's builder): not generated here
         nul = rng.random() < 0.5 and "token_dictionary" not in pr
+        if trees and rng.random() < 0.4:
+            # the same structure again under another labelling (shares the adjacency object, see run_impl)
+            t0 = rng.choice(trees)
+            trees.append(_tree(t0["n"], [list(e) for e in t0["edges"]], _rand_labels(rng, t0["n"], sub)))
         cs.append(_case(trees, rng.choice([1, 2, 2, 3, 4, 5, 8]), k, ka, rng.choice(ORIENTS), pr,
                         mask, nul, rng.choice(["csr", "csr", "csc", "coo", "lil"]), Xt))
     n_path = 50 if tier == "quick" else 600
@@ -284,8 +291,16 @@ def run_impl(case):
             kw[k] = {t: i for i, t in enumerate(v)}
         else:
             kw[k] = v
-    X = [(_mat(t, case["fmt"]), np.array(t["labels"])) for t in case["trees"]]
-    Xt = [(_mat(t, case["fmt"]), np.array(t["labels"])) for t in case["Xt"]]
+    shared = {}
+
+    def mat(t):
+        # trees with the same shape share ONE adjacency object, as a caller relabelling a fixed structure would pass it
+        key = (t["n"], tuple(map(tuple, t["edges"])))
+        if key not in shared:
+            shared[key] = _mat(t, case["fmt"])
+        return shared[key]
+    X = [(mat(t), np.array(t["labels"])) for t in case["trees"]]
+    Xt = [(mat(t), np.array(t["labels"])) for t in case["Xt"]]
     out = {}
     # kernel weights exactly as build_tree_skip_grams asks for them (intermediate values of the implementation)
     try:
